@@ -178,6 +178,8 @@ def run(ctx):
         for key, rep in oracle_search(ctx, o3)[:6]:
             ctx.violation(key, rep, True)
 
+    import extra_oracles
+    extra_oracles.c05_dtype_history(ctx, o3)
     ctx.notes["rule"] = ("translator validation: every sh_l_m (l ≤ 11) at seeded rational points incl. axes and 0, exact symbolic value vs float64 result; "
                          "API oracles: all output specifications × normalisations × normalize flags; non-trivial = l>0 and x≠0")
     ctx.assumptions += [
